@@ -4,7 +4,7 @@ import common
 
 def run(tier, replay=None):
     res = common.Result('C01', tier, 'exploration')
-    total = 6000 if tier == 'quick' else 120000
+    total = 10000 if tier == 'quick' else 120000
     exe = common.hbuild('h_file', ['h_file.cpp'], 'asan', need_reflect=True)
     env = common.san_env(dict(VERIF_TMP=common.scratch_dir()))
     sh = common.Sharded(exe, lambda a, b: ['c01', common.seed(), a, b], total, env=env, tag='c01', timeout=1500, case_timeout=200).run()
